@@ -7,10 +7,13 @@ interpretation of the operators satisfying the stated laws, every input and ever
 * `norm_sound`     : normalisation preserves the meaning of every term
 * `certify_sound`  : `certify before after = true` ⇒ `after` computes exactly what `before` does
                      (same number of outputs, same element types, ranks, extents, values)
+* `cast_laws_of_C17` : the two cast fields of `Laws` (`cast_same`, `cast_rt`) hold for every
+                     interpretation whose scalar conversion is a `C17.CastSem` (C17's round-trip theorem)
 * refutations: the rewrites the validator must *not* accept (side operand not transposed,
   intermediate observed as output) really change results — concrete counter-models
 -/
 import J2O.Lemmas.C02Rules
+import J2O.Lemmas.C02C17
 
 namespace J2O.C02
 open J2O Term
@@ -80,6 +83,31 @@ theorem certify_sound (L : Laws I WT) (hWT : ∀ t x, x ∈ eval I ρ t → WT x
   · have eb := (normN_sound I ρ WT L hWT 3 (stripApp before) (annotSound_stripApp I ρ before hb)).1
     rw [← ea, ← eval_stripApp I ρ before, ← eb, ← erase_eval I ρ (normN 3 after),
       ← erase_eval I ρ (normN 3 (stripApp before)), h]
+
+/-! ### The cast laws are theorems over the C17 value model -/
+
+/-- **The cast laws of `Laws` are theorems, not assumptions, over the C17 value model**: for every
+    cast semantics that is exact on commonly representable values (`C17.CastSem`), a cast to the
+    same type is the identity and every round trip accepted by the reference decision is the
+    identity on well-typed tensors. -/
+theorem cast_laws_of_C17 (C : C17.CastSem) :
+    (∀ d v, castSOf C d d v = v) ∧
+    (∀ s m (t : Tensor C17.Val), castRefOk s m = true → t.dtype = s → WTVal t →
+      castT (castSOf C) s (castT (castSOf C) m t) = t) := by
+  refine ⟨fun d v => by simp [castSOf], ?_⟩
+  intro s m t hok hd hwt
+  cases t with
+  | mk dtype rank dim get =>
+    simp only at hd
+    subst hd
+    simp only [castT, Tensor.mk.injEq, true_and]
+    funext i
+    by_cases hsm : dtype = m
+    · subst hsm; simp [castSOf]
+    · have hms : ¬ m = dtype := fun h => hsm h.symm
+      simp only [castSOf, hsm, hms, if_false]
+      exact C17.castOk_roundtrip C _ _ hok _ (hwt i)
+
 
 /-! ### Non-vacuity: a concrete interpretation satisfying the laws, and concrete verdicts -/
 
